@@ -378,8 +378,16 @@ def run(ck):
     gen_ok = regenerate(ck)
     broken = ck.coq_props()
     if os.path.exists(os.path.join(vlib.COQ, "Props", "C02Utf8.v")):
-        # bridge to C09: the model's UTF-8 automaton is the table-driven validator the code runs (obligations accumulate)
-        broken = ck.coq_props("Props/C02Utf8.v")
+        # bridge to C09 (the integrator's Props/C02Utf8.v): the model's UTF-8 automaton is the table-driven validator the
+        # code runs.  Its closure needs the UTF-8 tables regenerated from the tree under test (C09's translator).
+        try:
+            sys.path.insert(0, os.path.join(vlib.ROOT, "translators"))
+            import utf8_table
+            utf8_table.generate()
+            ck.obligation("translator_utf8_table", True)
+            broken = ck.coq_props("Props/C02Utf8.v")          # obligations accumulate
+        except Exception as e:      # TranslatorError (fail closed) or a missing tool chain
+            ck.obligation("translator_utf8_table", False, f"{type(e).__name__}: {e}"[:600])
     ok, out = vlib.coq_make(["Model/WsRecvRun.vo"])
     if not ok:
         ck.obligation("model_runner_builds", False, out[-1500:])
